@@ -401,6 +401,8 @@ META["explanation"] += " " + 'Also (rounds 10-11): wake-up order of the helper /
 
 META["explanation"] += " " + 'Also (round 12): fork-child rebuild of helpers (shared from C16); urcu_ref never attempts its CAS from a limit value.'
 
+META["explanation"] += " " + 'Also (round 14): before_fork asks and waits for every listed helper, whatever its queue holds (shared from C16.pause).'
+
 RULES = [
     ("C04.cs", rule_cs),
     ("C04.cs", rule_listcs),
